@@ -7,6 +7,7 @@
 #![allow(dead_code)]
 mod rng;
 mod sx;
+mod c02;
 mod c07;
 mod c08;
 mod c09;
@@ -45,6 +46,8 @@ fn prop(id: &str) -> Prop {
         "C16" => Prop { gen: c16::gen, run: c16::run },
         "C20" => Prop { gen: c20::gen, run: c20::run },
         "C07" => Prop { gen: c07::gen, run: c07::run },
+        "C02" => Prop { gen: c02::gen, run: c02::run },
+        "C03" => Prop { gen: c02::gen_c03, run: c02::run },
         "C13" => Prop { gen: c13::gen, run: c13::run },
         _ => { eprintln!("unknown property {}", id); std::process::exit(2) }
     }
